@@ -191,6 +191,8 @@ func (x *Exec) oblige(st *State, kind, detail string, cond *Term, pos token.Pos)
 	fn := ""
 	if x.curFn != nil {
 		fn = x.curFn.RelString(nil)
+	} else if x.target != nil {
+		fn = x.target.Name
 	}
 	base := fmt.Sprintf("%s/%s:%s", shortFn(fn), kind, detail)
 	n := x.oblNames[base]
